@@ -101,6 +101,8 @@ enum Stmt {
     Lv(String),
     Block(Vec<Stmt>),
     Use(String),
+    /// `lvi NAME REF[@p]`: `int NAME = <use of REF at position p>;` (the initialiser is typed before the local is declared)
+    Lvi(String, String),
 }
 
 #[derive(Clone, Debug)]
@@ -120,7 +122,7 @@ fn is_ident(s: &str) -> bool {
     }
 }
 
-const STRUCTURE_WORDS: &[&str] = &["ns", "st", "en", "gl", "fn", "lv", "use", "end", "{", "}"];
+const STRUCTURE_WORDS: &[&str] = &["ns", "st", "en", "gl", "fn", "lv", "lvi", "use", "end", "{", "}"];
 
 fn parse_stmts(t: &[&str], mut i: usize) -> Option<(Vec<Stmt>, usize)> {
     let mut out = Vec::new();
@@ -134,6 +136,10 @@ fn parse_stmts(t: &[&str], mut i: usize) -> Option<(Vec<Stmt>, usize)> {
             "use" => {
                 out.push(Stmt::Use(t.get(i + 1)?.to_string()));
                 i += 2;
+            }
+            "lvi" => {
+                out.push(Stmt::Lvi(t.get(i + 1)?.to_string(), t.get(i + 2)?.to_string()));
+                i += 3;
             }
             "{" => {
                 let (b, j) = parse_stmts(t, i + 1)?;
@@ -209,6 +215,11 @@ fn show_stmts(ss: &[Stmt], out: &mut Vec<String>) {
             }
             Stmt::Use(r) => {
                 out.push("use".into());
+                out.push(r.clone());
+            }
+            Stmt::Lvi(n, r) => {
+                out.push("lvi".into());
+                out.push(n.clone());
                 out.push(r.clone());
             }
             Stmt::Block(b) => {
@@ -325,6 +336,10 @@ impl<'a> Walker<'a> {
                     Stmt::Lv(self.ent(('L', o, 0), n, Some(func), ""))
                 }
                 Stmt::Use(r) => Stmt::Use(r.clone()),
+                Stmt::Lvi(n, r) => {
+                    let o = self.next('L');
+                    Stmt::Lvi(self.ent(('L', o, 0), n, Some(func), ""), r.clone())
+                }
                 Stmt::Block(b) => Stmt::Block(self.stmts(b, func)),
             })
             .collect()
@@ -466,13 +481,55 @@ fn qualified_src(t: &Table, e: &Ent) -> String {
     format!("::{}", path.join("::"))
 }
 
+/// expression position classes a use can be printed at (`use G0@i`): every operand field of an ir::Expression variant that
+/// gather_usage_for_expression has to descend into.  No suffix = the whole expression statement.
+const USE_POSITIONS: &[char] = &['i', 'j', 'a', 't', 'c', 'b', 'k', 'n', 's', 'o'];
+
+fn ref_pos(r: &str) -> Option<char> {
+    r.split_once('@').and_then(|(_, p)| p.chars().next())
+}
+
+/// the use `x` (a qualified path or a call) wrapped so that it sits at position class `p`
+fn at_pos(x: &str, p: Option<char>) -> String {
+    match p {
+        // subscript INDEX (ArraySubscript field 1), also nested in the index of an index
+        Some('i') => format!("int4(0, 0, 0, 0)[{}]", x),
+        Some('j') => format!("int4(0, 0, 0, 0)[int4(0, 0, 0, 0)[{}]]", x),
+        // subscript OBJECT (ArraySubscript field 0)
+        Some('o') => format!("int4({}, 0, 0, 0)[0]", x),
+        // intrinsic argument, ternary arm / condition, binary operand, cast operand, constructor argument, swizzle object
+        Some('a') => format!("abs({})", x),
+        Some('t') => format!("(true ? {} : 0)", x),
+        Some('c') => format!("({} != 0 ? 1 : 0)", x),
+        Some('b') => format!("(1 + {})", x),
+        Some('k') => format!("(float){}", x),
+        Some('n') => format!("int2({}, 0)", x),
+        Some('s') => format!("int2({}, 0).x", x),
+        _ => x.to_string(),
+    }
+}
+
 fn parse_ref(r: &str) -> Option<Key> {
+    let r = r.split_once('@').map(|(a, _)| a).unwrap_or(r);
     let kind = r.chars().next()?;
     let rest = &r[1..];
     if let Some((a, b)) = rest.split_once('.') {
         Some((kind, a.parse().ok()?, b.parse().ok()?))
     } else {
         Some((kind, rest.parse().ok()?, 0))
+    }
+}
+
+fn use_expr(r: &str, t: &Table) -> String {
+    let p = ref_pos(r);
+    match parse_ref(r).and_then(|k| t.get(k)) {
+        Some(e) if e.key.0 == 'L' => at_pos(&e.name, p),
+        Some(e) if e.key.0 == 'F' => {
+            let args: Vec<&str> = if e.ptypes == "-" { vec![] } else { e.ptypes.chars().map(parg).collect() };
+            at_pos(&format!("{}({})", qualified_src(t, e), args.join(", ")), p)
+        }
+        Some(e) => at_pos(&qualified_src(t, e), p),
+        None => "0".to_string(),
     }
 }
 
@@ -487,15 +544,8 @@ fn src_stmts(ss: &[Stmt], t: &Table, out: &mut String, depth: usize) {
                 out.push_str(&"    ".repeat(depth));
                 out.push_str("}\n");
             }
-            Stmt::Use(r) => match parse_ref(r).and_then(|k| t.get(k)) {
-                Some(e) if e.key.0 == 'L' => out.push_str(&format!("{};\n", e.name)),
-                Some(e) if e.key.0 == 'F' => {
-                    let args: Vec<&str> = if e.ptypes == "-" { vec![] } else { e.ptypes.chars().map(parg).collect() };
-                    out.push_str(&format!("{}({});\n", qualified_src(t, e), args.join(", ")));
-                }
-                Some(e) => out.push_str(&format!("{};\n", qualified_src(t, e))),
-                None => out.push_str("0;\n"),
-            },
+            Stmt::Use(r) => out.push_str(&format!("{};\n", use_expr(r, t))),
+            Stmt::Lvi(n, r) => out.push_str(&format!("int {} = {};\n", n, use_expr(r, t))),
         }
     }
 }
@@ -1367,6 +1417,11 @@ fn sanitize(items: &[Item]) -> Vec<Item> {
                         out.push(s.clone());
                     }
                 }
+                Stmt::Lvi(n, _) => {
+                    vis.push((*next_local, n.clone()));
+                    *next_local += 1;
+                    out.push(s.clone());
+                }
             }
         }
         out
@@ -1429,6 +1484,63 @@ fn sweep_programs(name: &str) -> Vec<String> {
         format!("fn {0} i zqa {{ }} fn {0} f zqb {{ }} fn {0}_0 - {{ }} gl {0}_1", name),
         format!("fn {0}_0 - {{ }} fn zqf i {0} {{ use L0 use F0 }}", name),
     ]
+}
+
+/// directed programs: symbol `x` (global, namespaced global, function) whose every use sits at ONE position class, and a
+/// local / parameter `x` in the using function
+fn position_programs() -> Vec<String> {
+    let mut v = Vec::new();
+    let mut ps: Vec<String> = vec![String::new()];
+    ps.extend(USE_POSITIONS.iter().map(|c| format!("@{}", c)));
+    for p in &ps {
+        // `::x` with a local / parameter / block local `x` in scope
+        v.push(format!("gl x fn zqf - {{ lv x use G0{} }}", p));
+        v.push(format!("gl x fn zqf i x {{ use G0{} }}", p));
+        v.push(format!("gl x fn zqf - {{ {{ lv x use G0{} }} }}", p));
+        // `N::x`
+        v.push(format!("ns N gl x end fn zqf - {{ lv x use G0{} }}", p));
+        // the initialiser is typed before the local is declared: `int x = <use of x>;`
+        v.push(format!("gl x fn zqf - {{ lvi x G0{} }}", p));
+        v.push(format!("fn x i zqa {{ }} fn zqf - {{ lvi x F0{} }}", p));
+        v.push(format!("ns N fn x - {{ }} end fn zqf - {{ lvi x F0{} }}", p));
+        // function called only there
+        v.push(format!("fn x - {{ }} fn zqf - {{ lv x use F0{} }}", p));
+        // the use sits in another function than the local (the reservation is module-wide)
+        v.push(format!("gl x fn zqg - {{ use G0{} }} fn zqf - {{ lv x use F0 }}", p));
+        // one use there and the local declared by `lvi` from another symbol
+        v.push(format!("gl x gl y fn zqf - {{ lvi x G1{} use G0{} }}", p, p));
+    }
+    v
+}
+
+/// every use of a global / function moves to a random position class; a third of the plain locals that follow a visible
+/// symbol get that symbol as initialiser
+fn scatter_positions(items: &[Item], rng: &mut Rng) -> Vec<Item> {
+    fn stmts(ss: &[Stmt], rng: &mut Rng) -> Vec<Stmt> {
+        ss.iter()
+            .map(|s| match s {
+                Stmt::Use(r) if (r.starts_with('G') || r.starts_with('F')) && !r.contains('@') => {
+                    let k = rng.below(USE_POSITIONS.len() as u64 + 2) as usize;
+                    match USE_POSITIONS.get(k) {
+                        Some(c) => Stmt::Use(format!("{}@{}", r, c)),
+                        // the subscript index twice as often as the others
+                        None if k == USE_POSITIONS.len() => Stmt::Use(format!("{}@i", r)),
+                        None => s.clone(),
+                    }
+                }
+                Stmt::Block(b) => Stmt::Block(stmts(b, rng)),
+                other => other.clone(),
+            })
+            .collect()
+    }
+    items
+        .iter()
+        .map(|it| match it {
+            Item::Ns(n, inner) => Item::Ns(n.clone(), scatter_positions(inner, rng)),
+            Item::Fn(n, pt, ps, body) => Item::Fn(n.clone(), pt.clone(), ps.clone(), stmts(body, rng)),
+            other => other.clone(),
+        })
+        .collect()
 }
 
 pub fn run(args: &Args, out: &mut Out) {
@@ -1495,6 +1607,33 @@ pub fn run(args: &Args, out: &mut Out) {
             run_case(t, &prog, &mut cx, out);
         }
     }
+    // (2b) usage positions: a function / global used ONLY at one expression position class (subscript index, nested index,
+    // subscript object, intrinsic argument, ternary arm / condition, binary operand, cast, constructor argument, swizzle
+    // object, initialiser of a local declared under the symbol's own name) next to a same-named local / parameter of the
+    // using function; then random programs (own generator: the older stream keeps its programs) whose uses sit at random
+    // positions.  NameMap::build must keep the local off the emitted name wherever the use sits.
+    let mut pos_cases = 0u64;
+    for p in position_programs() {
+        for t in ["h", "m"] {
+            run_case(t, &p, &mut cx, out);
+            pos_cases += 1;
+        }
+    }
+    {
+        let mut prng = Rng::new(args.seed ^ 0x705c_15a7);
+        let pools2 = Pools { ordinary: ["a", "b", "x", "N"].iter().map(|s| s.to_string()).collect(), special: vec!["a".to_string()] };
+        let np = if args.thorough() { 3000 } else { 300 };
+        for _ in 0..np {
+            let items = random_program(&mut prng, &pools2);
+            let items = scatter_positions(&items, &mut prng);
+            let prog = show_program(&items);
+            for t in ["h", "m"] {
+                run_case(t, &prog, &mut cx, out);
+                pos_cases += 1;
+            }
+        }
+    }
+    cx.hist.add(&format!("position-cases:{}", pos_cases));
     // (3) resources, pipelines and generated declarations on all four target configurations
     let (rswept, rn) = {
         let Ctx { tables, hist } = &mut cx;
